@@ -189,3 +189,38 @@ def eval_program(prog, hook=True, with_resolve=True):
             r["resolve"] = normalise(b.resolve(pos), defs, call)
         out.append(r)
     return out, w, b
+
+
+def kf01_shape_generic(hold, impl, le):
+    """KF-01's deviation shape, for any reference rule given as `le(ta, tb)` (declared type ta at least as specific as tb;
+    None = the rule is silent): the rule says Ambiguous, the implementation runs a method `me` that holds, no holding
+    method of the same or higher priority beats it by the rule, and every same-priority holder that `me` does not beat
+    itself is kept from being beaten only by positions where the two declared types are unrelated (neither at least as
+    specific as the other) -- the positions where layer-index levels compare what the type order leaves incomparable."""
+    if impl[0] != "run":
+        return False
+    me = [d for d in hold if d["id"] == impl[1]]
+    if not me:
+        return False
+    me = me[0]
+    found = False
+    for y in hold:
+        if y is me:
+            continue
+        if y["prio"] != me["prio"]:
+            if y["prio"] > me["prio"]:
+                return False
+            continue
+        les_xy = [le(tx, ty) for tx, ty in zip(me["pos"], y["pos"])]
+        les_yx = [le(ty, tx) for tx, ty in zip(me["pos"], y["pos"])]
+        if any(l is None for l in les_xy + les_yx):
+            return False
+        if all(les_yx) and not all(les_xy):
+            return False              # y beats the method that ran: a different defect
+        if all(les_xy):
+            continue                  # beaten by the rule as well
+        for a, c in zip(les_xy, les_yx):
+            if not a and c:
+                return False          # y strictly more specific somewhere: a genuine crossing, the rule's ambiguity is real
+        found = True
+    return found
